@@ -31,6 +31,7 @@ type Scenario struct {
 	File     *FileSpec      `json:"file,omitempty"`
 	Ez       *EzSpec        `json:"ez,omitempty"`
 	Stream   *StreamSpec    `json:"stream,omitempty"`
+	Wrap     *WrapSpec      `json:"wrap,omitempty"`
 }
 
 type SourceSpec struct {
